@@ -19,11 +19,14 @@
     endtag_closes_to_innermost_match endtag_without_match_closes_all void_endtag_ignored
     xml_layer_tree_merged events_determine_tree
     html_nothing_lost xml_events_are_callbacks
+    html_positions_projection xml_positions_projection coalesce_positions_come_from_events
+    html_closers_take_last_position xml_text_position
 -/
 import Genshi.Lemmas.ParseHtml
 import Genshi.Lemmas.ParseXml
 import Genshi.Lemmas.ParseTree
 import Genshi.Lemmas.ParseContent
+import Genshi.Lemmas.ParsePos
 namespace Genshi.Props.C07
 open Genshi Genshi.Parse
 
@@ -31,7 +34,7 @@ open Genshi Genshi.Parse
 
 /-- all callbacks of a parse, batches forgotten -/
 def htmlItems (reads : List HtmlRead) (close : List (Item HtmlCb)) : List (Item HtmlCb) :=
-  (reads.map HtmlRead.toRead).flatMap Read.toItems ++ close
+  (reads.map HtmlReadG.toRead).flatMap Read.toItems ++ close
 
 /-- tokenizer contract for the void-element clause: no reported start tag name begins with a brace -/
 def TagsOk (reads : List HtmlRead) (close : List (Item HtmlCb)) : Prop :=
@@ -44,16 +47,16 @@ def TagsOk (reads : List HtmlRead) (close : List (Item HtmlCb)) : Prop :=
 theorem html_events_wellnested (env : Env) (reads : List HtmlRead) (close : List (Item HtmlCb))
     (s : Stream) (h : htmlParse env reads close = (s, none)) :
     WellNested s ∧ noAdjText s = true ∧ (TagsOk reads close → voidClosed env.void s = true) := by
-  obtain ⟨h1, _, h3⟩ := parse_vs_eager (htmlLayer env) htmlHandler [] (reads.map HtmlRead.toRead) close
+  obtain ⟨h1, _, h3⟩ := parse_vs_eager (htmlLayer env) htmlHandler [] (reads.map HtmlReadG.toRead) close
   simp only [htmlParse] at h
   rw [h] at h1 h3
   simp only at h1 h3
-  have hnone : (eager (htmlLayer env) [] ((reads.map HtmlRead.toRead).flatMap Read.toItems ++ close)).2 = none := by
-    cases hh : (eager (htmlLayer env) [] ((reads.map HtmlRead.toRead).flatMap Read.toItems ++ close)).2 with
+  have hnone : (eager (htmlLayer env) [] ((reads.map HtmlReadG.toRead).flatMap Read.toItems ++ close)).2 = none := by
+    cases hh : (eager (htmlLayer env) [] ((reads.map HtmlReadG.toRead).flatMap Read.toItems ++ close)).2 with
     | none => rfl
     | some e => rw [hh] at h1; simp at h1
   have hs := h3 hnone
-  obtain ⟨st, hb, hst⟩ := eager_html_balance env ((reads.map HtmlRead.toRead).flatMap Read.toItems ++ close) []
+  obtain ⟨st, hb, hst⟩ := eager_html_balance env ((reads.map HtmlReadG.toRead).flatMap Read.toItems ++ close) []
   have hst' := hst hnone
   subst hst'
   refine ⟨?_, ?_, ?_⟩
@@ -76,10 +79,10 @@ theorem balance_prefix (st : List QName) (a b : Stream) (x : List QName)
     that is not open (it is the beginning of a well-nested stream). -/
 theorem html_delivered_balanced (env : Env) (reads : List HtmlRead) (close : List (Item HtmlCb)) :
     ∃ st, balance [] (htmlParse env reads close).1 = some st := by
-  obtain ⟨_, h2, _⟩ := parse_vs_eager (htmlLayer env) htmlHandler [] (reads.map HtmlRead.toRead) close
-  obtain ⟨st, hb, _⟩ := eager_html_balance env ((reads.map HtmlRead.toRead).flatMap Read.toItems ++ close) []
+  obtain ⟨_, h2, _⟩ := parse_vs_eager (htmlLayer env) htmlHandler [] (reads.map HtmlReadG.toRead) close
+  obtain ⟨st, hb, _⟩ := eager_html_balance env ((reads.map HtmlReadG.toRead).flatMap Read.toItems ++ close) []
   obtain ⟨t, ht⟩ := h2
-  have : balance [] (coalesce (eager (htmlLayer env) [] ((reads.map HtmlRead.toRead).flatMap Read.toItems ++ close)).1) = some st := by
+  have : balance [] (coalesce (eager (htmlLayer env) [] ((reads.map HtmlReadG.toRead).flatMap Read.toItems ++ close)).1) = some st := by
     rw [coalesce, balance_coalesceGo]; exact hb
   rw [← ht] at this
   exact balance_prefix [] _ t st this
@@ -91,16 +94,16 @@ theorem html_batching_irrelevant (env : Env) (reads reads' : List HtmlRead)
     (close close' : List (Item HtmlCb)) (h : htmlItems reads close = htmlItems reads' close') :
     (htmlParse env reads close).2 = (htmlParse env reads' close').2 ∧
     ((htmlParse env reads close).2 = none → (htmlParse env reads close).1 = (htmlParse env reads' close').1) := by
-  obtain ⟨a1, _, a3⟩ := parse_vs_eager (htmlLayer env) htmlHandler [] (reads.map HtmlRead.toRead) close
-  obtain ⟨b1, _, b3⟩ := parse_vs_eager (htmlLayer env) htmlHandler [] (reads'.map HtmlRead.toRead) close'
+  obtain ⟨a1, _, a3⟩ := parse_vs_eager (htmlLayer env) htmlHandler [] (reads.map HtmlReadG.toRead) close
+  obtain ⟨b1, _, b3⟩ := parse_vs_eager (htmlLayer env) htmlHandler [] (reads'.map HtmlReadG.toRead) close'
   simp only [htmlItems] at h
   simp only [htmlParse]
   rw [h] at a1 a3
   refine ⟨by rw [a1, b1], ?_⟩
   intro hn
   rw [a1] at hn
-  have hnone : (eager (htmlLayer env) [] ((reads'.map HtmlRead.toRead).flatMap Read.toItems ++ close')).2 = none := by
-    cases hh : (eager (htmlLayer env) [] ((reads'.map HtmlRead.toRead).flatMap Read.toItems ++ close')).2 with
+  have hnone : (eager (htmlLayer env) [] ((reads'.map HtmlReadG.toRead).flatMap Read.toItems ++ close')).2 = none := by
+    cases hh : (eager (htmlLayer env) [] ((reads'.map HtmlReadG.toRead).flatMap Read.toItems ++ close')).2 with
     | none => rfl
     | some e => rw [hh] at hn; simp at hn
   rw [a3 hnone, b3 hnone]
@@ -147,12 +150,12 @@ theorem html_nothing_lost (env : Env) (reads : List HtmlRead) (close : List (Ite
     (s : Stream) (h : htmlParse env reads close = (s, none)) :
     textOf s = (htmlItems reads close).flatMap itemText ∧
     mainEvents s = (htmlItems reads close).flatMap (itemMain env) := by
-  obtain ⟨h1, _, h3⟩ := parse_vs_eager (htmlLayer env) htmlHandler [] (reads.map HtmlRead.toRead) close
+  obtain ⟨h1, _, h3⟩ := parse_vs_eager (htmlLayer env) htmlHandler [] (reads.map HtmlReadG.toRead) close
   simp only [htmlParse] at h
   rw [h] at h1 h3
   simp only at h1 h3
-  have hnone : (eager (htmlLayer env) [] ((reads.map HtmlRead.toRead).flatMap Read.toItems ++ close)).2 = none := by
-    cases hh : (eager (htmlLayer env) [] ((reads.map HtmlRead.toRead).flatMap Read.toItems ++ close)).2 with
+  have hnone : (eager (htmlLayer env) [] ((reads.map HtmlReadG.toRead).flatMap Read.toItems ++ close)).2 = none := by
+    cases hh : (eager (htmlLayer env) [] ((reads.map HtmlReadG.toRead).flatMap Read.toItems ++ close)).2 with
     | none => rfl
     | some e => rw [hh] at h1; simp at h1
   obtain ⟨c1, c2⟩ := eager_html_content env _ [] hnone
@@ -170,10 +173,10 @@ def OnlyExceptions (env : Env) (reads : List HtmlRead) (close : List (Item HtmlC
 theorem html_errors_are_parseerror (env : Env) (reads : List HtmlRead) (close : List (Item HtmlCb))
     (hex : OnlyExceptions env reads close) (r : Raised) (h : (htmlParse env reads close).2 = some r) :
     r = .parseError (-1) (-1) := by
-  obtain ⟨a1, _, _⟩ := parse_vs_eager (htmlLayer env) htmlHandler [] (reads.map HtmlRead.toRead) close
+  obtain ⟨a1, _, _⟩ := parse_vs_eager (htmlLayer env) htmlHandler [] (reads.map HtmlReadG.toRead) close
   simp only [htmlParse] at h
   rw [h] at a1
-  cases he : (eager (htmlLayer env) [] ((reads.map HtmlRead.toRead).flatMap Read.toItems ++ close)).2 with
+  cases he : (eager (htmlLayer env) [] ((reads.map HtmlReadG.toRead).flatMap Read.toItems ++ close)).2 with
   | none => rw [he] at a1; simp at a1
   | some e =>
     rw [he] at a1
@@ -188,7 +191,7 @@ theorem html_errors_are_parseerror (env : Env) (reads : List HtmlRead) (close : 
     (`except Exception`), e.g. when raised by the tokenizer in the second batch. -/
 theorem html_base_exception_propagates (env : Env) (n : Str) :
     htmlParse env [.text [.cb (.data ['x'])], .text [.raise (.base n)]] [] = ([], some (.propagate n)) := by
-  simp [htmlParse, parse, generate, feed, htmlLayer, htmlStep, HtmlRead.toRead, htmlHandler, coalesceGo, flushBuf]
+  simp [htmlParse, parse, generate, feed, htmlLayer, htmlStep, HtmlReadG.toRead, htmlHandler, coalesceGo, flushBuf]
 
 /-- The void clause of `html_events_wellnested` really needs the tokenizer contract: `QName('{br')`
     is `br`, but `'{br'` is not in `_EMPTY_ELEMS`, so a tokenizer reporting the tag `{br` would get
@@ -242,8 +245,8 @@ theorem coalesce_idempotent (s : Stream) : coalesce (coalesce s) = coalesce s :=
     and raises nothing. -/
 theorem xml_layer_tree (doc : List XNode) (reads : List (List (Item XmlCb))) (close : List (Item XmlCb))
     (h : reads.flatten ++ close = (callbacksList doc).map Item.cb) :
-    xmlParse (reads.map XmlRead.chunk) close = (coalesce (flattenList (toNodesList doc)), none) := by
-  obtain ⟨a1, _, a3⟩ := parse_vs_eager xmlLayer xmlHandler () ((reads.map XmlRead.chunk).map XmlRead.toRead) close
+    xmlParse (reads.map XmlReadG.chunk) close = (coalesce (flattenList (toNodesList doc)), none) := by
+  obtain ⟨a1, _, a3⟩ := parse_vs_eager xmlLayer xmlHandler () ((reads.map XmlReadG.chunk).map XmlReadG.toRead) close
   rw [xmlReads_items, h, eager_xml_forest] at a1 a3
   simp only [Option.map_none] at a1 a3
   unfold xmlParse
@@ -252,8 +255,8 @@ theorem xml_layer_tree (doc : List XNode) (reads : List (List (Item XmlCb))) (cl
 /-- the stream of a tree traversal is well nested and has no adjacent text -/
 theorem xml_tree_wellformed (doc : List XNode) (reads : List (List (Item XmlCb))) (close : List (Item XmlCb))
     (h : reads.flatten ++ close = (callbacksList doc).map Item.cb) :
-    WellNested (xmlParse (reads.map XmlRead.chunk) close).1 ∧
-    noAdjText (xmlParse (reads.map XmlRead.chunk) close).1 = true := by
+    WellNested (xmlParse (reads.map XmlReadG.chunk) close).1 ∧
+    noAdjText (xmlParse (reads.map XmlReadG.chunk) close).1 = true := by
   rw [xml_layer_tree doc reads close h]
   refine ⟨?_, noAdjText_coalesceGo true _ none⟩
   unfold WellNested
@@ -265,7 +268,7 @@ theorem xml_tree_wellformed (doc : List XNode) (reads : List (List (Item XmlCb))
     in which each maximal run of character data is one text node -/
 theorem xml_layer_tree_merged (doc : List XNode) (reads : List (List (Item XmlCb))) (close : List (Item XmlCb))
     (h : reads.flatten ++ close = (callbacksList doc).map Item.cb) :
-    xmlParse (reads.map XmlRead.chunk) close = (flattenList (mergeForest (toNodesList doc)), none) := by
+    xmlParse (reads.map XmlReadG.chunk) close = (flattenList (mergeForest (toNodesList doc)), none) := by
   rw [xml_layer_tree doc reads close h, coalesce_flattenList]
 
 /-- comparing event streams is comparing trees: two well-formed forests with the same events are equal -/
@@ -276,9 +279,9 @@ theorem events_determine_tree (a b : List Node) (ha : okList a = true) (hb : okL
 /-- for **every** sequence of Expat callbacks that does not fail (tree or not): the delivered stream
     is what the handler calls enqueue, in order, with adjacent text merged — whatever the batches -/
 theorem xml_events_are_callbacks (reads : List XmlRead) (close : List (Item XmlCb))
-    (h : firstFailure ((reads.map XmlRead.toRead).flatMap Read.toItems ++ close) = none) :
-    xmlParse reads close = (coalesce (((reads.map XmlRead.toRead).flatMap Read.toItems ++ close).flatMap xItemEvents), none) := by
-  obtain ⟨a1, _, a3⟩ := parse_vs_eager xmlLayer xmlHandler () (reads.map XmlRead.toRead) close
+    (h : firstFailure ((reads.map XmlReadG.toRead).flatMap Read.toItems ++ close) = none) :
+    xmlParse reads close = (coalesce (((reads.map XmlReadG.toRead).flatMap Read.toItems ++ close).flatMap xItemEvents), none) := by
+  obtain ⟨a1, _, a3⟩ := parse_vs_eager xmlLayer xmlHandler () (reads.map XmlReadG.toRead) close
   rw [eager_xml_events _ h] at a1 a3
   simp only [Option.map_none] at a1 a3
   unfold xmlParse
@@ -289,7 +292,7 @@ theorem xml_text_is_plain (reads : List XmlRead) (close : List (Item XmlCb)) (t 
   parse_text_plain _ _ _ _ _ t b h
 
 def xmlItems (reads : List XmlRead) (close : List (Item XmlCb)) : List (Item XmlCb) :=
-  (reads.map XmlRead.toRead).flatMap Read.toItems ++ close
+  (reads.map XmlReadG.toRead).flatMap Read.toItems ++ close
 
 /-- **xml_batching_irrelevant.** For every sequence of Expat callbacks (tree or not): the outcome
     depends only on the concatenation of the batches. -/
@@ -298,16 +301,16 @@ theorem xml_batching_irrelevant (reads reads' : List XmlRead) (close close' : Li
     (xmlParse reads close).2 = (xmlParse reads' close').2 ∧
     ((xmlParse reads close).2 = none → (xmlParse reads close).1 = (xmlParse reads' close').1) ∧
     noAdjText (xmlParse reads close).1 = true := by
-  obtain ⟨a1, _, a3⟩ := parse_vs_eager xmlLayer xmlHandler () (reads.map XmlRead.toRead) close
-  obtain ⟨b1, _, b3⟩ := parse_vs_eager xmlLayer xmlHandler () (reads'.map XmlRead.toRead) close'
+  obtain ⟨a1, _, a3⟩ := parse_vs_eager xmlLayer xmlHandler () (reads.map XmlReadG.toRead) close
+  obtain ⟨b1, _, b3⟩ := parse_vs_eager xmlLayer xmlHandler () (reads'.map XmlReadG.toRead) close'
   simp only [xmlItems] at h
   simp only [xmlParse]
   rw [h] at a1 a3
   refine ⟨by rw [a1, b1], ?_, ?_⟩
   · intro hn
     rw [a1] at hn
-    have hnone : (eager xmlLayer () ((reads'.map XmlRead.toRead).flatMap Read.toItems ++ close')).2 = none := by
-      cases hh : (eager xmlLayer () ((reads'.map XmlRead.toRead).flatMap Read.toItems ++ close')).2 with
+    have hnone : (eager xmlLayer () ((reads'.map XmlReadG.toRead).flatMap Read.toItems ++ close')).2 = none := by
+      cases hh : (eager xmlLayer () ((reads'.map XmlReadG.toRead).flatMap Read.toItems ++ close')).2 with
       | none => rfl
       | some e => rw [hh] at hn; simp at hn
     rw [a3 hnone, b3 hnone]
@@ -323,7 +326,7 @@ theorem xml_errors_are_parseerror_with_line (reads : List XmlRead) (close : List
     (xmlParse reads close).2 = (firstFailure (xmlItems reads close)).map xmlHandler ∧
     ∀ l c, firstFailure (xmlItems reads close) = some (.expat l c) →
       (xmlParse reads close).2 = some (.parseError l c) := by
-  obtain ⟨a1, _, _⟩ := parse_vs_eager xmlLayer xmlHandler () (reads.map XmlRead.toRead) close
+  obtain ⟨a1, _, _⟩ := parse_vs_eager xmlLayer xmlHandler () (reads.map XmlReadG.toRead) close
   rw [eager_xml_error] at a1
   refine ⟨a1, ?_⟩
   intro l c hf
@@ -339,7 +342,7 @@ theorem xml_undefined_entity_position (name : Str) (l c : Int) (pre : List (Item
     (rest close : List (Item XmlCb)) :
     (xmlParse [.chunk (pre ++ .cb (.default_ ('&' :: name) l c) :: rest)] close).2 = some (.parseError l c) := by
   apply (xml_errors_are_parseerror_with_line _ _).2
-  simp only [xmlItems, List.map_cons, List.map_nil, XmlRead.toRead, List.flatMap_cons, Read.toItems,
+  simp only [xmlItems, List.map_cons, List.map_nil, XmlReadG.toRead, List.flatMap_cons, Read.toItems,
     List.flatMap_nil, List.append_nil, List.append_assoc]
   induction pre with
   | nil => simp [firstFailure, handleOther, hundef]
@@ -369,6 +372,56 @@ theorem xml_html_entity_is_text :
 theorem xml_unencodable_chunk_escapes :
     xmlParse [.unencodable] [] =
       ([], some (.propagate ['U','n','i','c','o','d','e','E','n','c','o','d','e','E','r','r','o','r'])) := by
+  decide
+
+/-! ## positions
+
+The driver (`gdrv`) runs the models *with* positions (`htmlParseP`, `xmlParseP`: `_enqueue`'s stamping,
+`_coalesce`'s `textpos`, the closers' re-used `pos`, the TEXT fix-up of the XML parser), and the
+correspondence compares positions too. Every theorem above is about those same computations: -/
+
+/-- forgetting the positions of what the positioned HTML model delivers gives exactly what the
+    position-free model delivers for the same callbacks; the exception is the same -/
+theorem html_positions_projection (env : Env) (reads : List HtmlReadP) (close : List (Item (HtmlCb × Pos))) :
+    htmlParse env (reads.map (HtmlReadG.map Prod.fst)) (close.map (Item.map Prod.fst)) =
+      (erase (htmlParseP env reads close).1, (htmlParseP env reads close).2) :=
+  htmlParseP_erase env reads close
+
+theorem xml_positions_projection (reads : List XmlReadP) (close : List (Item (XmlCb × Pos))) :
+    xmlParse (reads.map (XmlReadG.map Prod.fst)) (close.map (Item.map Prod.fst)) =
+      (erase (xmlParseP reads close).1, (xmlParseP reads close).2) :=
+  xmlParseP_erase reads close
+
+/-- `_coalesce` invents no position (a merged TEXT keeps the position of the first event of its run) -/
+theorem coalesce_positions_come_from_events (f : Bool) (s : PStream) (x : PEvent)
+    (h : x ∈ coalesceGoP f none s) : ∃ y ∈ s, y.2 = x.2 := by
+  rcases coalesceGoP_positions f s none x h with h | ⟨b, hb, _⟩
+  · exact h
+  · simp at hb
+
+/-- the END events that close what is still open at end of input all carry the position of the last
+    event before them -/
+theorem html_closers_take_last_position (env : Env) (items : List (Item (HtmlCb × Pos)))
+    (h : (eager (htmlLayerP env) ⟨[], none⟩ items).2 = none) :
+    ∃ q cl, (eager (htmlLayerP env) ⟨[], none⟩ items).1 = q ++ cl ∧
+      ∀ x ∈ cl, isEnd x.1 = true ∧ x.2 = ((q.getLast?).map (·.2)).getD (-1, -1) := by
+  obtain ⟨k', q, hr, he⟩ := eager_none_run_ok (htmlLayerP env) items ⟨[], none⟩ h
+  refine ⟨q, closersP k', by rw [he]; rfl, ?_⟩
+  intro x hx
+  have hl := run_html_last env items ⟨[], none⟩ k' q hr
+  simp only [closersP, List.mem_map] at hx
+  obtain ⟨t, _, rfl⟩ := hx
+  refine ⟨rfl, ?_⟩
+  simp only [hl]
+  cases q.getLast? <;> rfl
+
+/-- `_enqueue`'s TEXT fix-up: Expat reports the end of the text; single-line text is moved back by its
+    length, text with a line feed to its first line with unknown offset (`len(data.splitlines())`) -/
+theorem xml_text_position :
+    textPos ['f','o','o',' ','b','a','r'] (1, 13) = (1, 6) ∧
+    textPos ['f','o','o','\n','b','a','r'] (2, 3) = (1, -1) ∧
+    textPos ['a','\r','\n','b','\n'] (5, 0) = (4, -1) ∧
+    lineCount ['a', Char.ofNat 0x85, 'b', Char.ofNat 0x2028, '\n', '\n'] = 4 := by
   decide
 
 /-! ## non-vacuity -/
@@ -414,5 +467,14 @@ example :
 /-- merging on the tree: two text pieces and a CDATA section next to each other -/
 example : flattenList (mergeForest (toNodesList [XNode.elem ['a'] [] [] [.chars [['x'], ['y']], .chars [['z']]]])) =
     [.start ⟨[], ['a']⟩ [], .text ['x', 'y', 'z'] false, .end_ ⟨[], ['a']⟩] := by decide
+
+/-- positions: two reads, text merged across them keeps the first position, the closers re-use the last -/
+example :
+    let env : Env := ⟨fun v => .ok v, asciiLower, Genshi.Gen.Output.parserEmptyElems⟩
+    htmlParseP env [.text [.cb (.starttag ['p'] [], (1, 0)), .cb (.data ['a'], (1, 3))],
+                    .text [.cb (.data ['b'], (2, 0)), .cb (.starttag ['i'] [], (2, 1))]] [] =
+    ([(.start ⟨[], ['p']⟩ [], (1, 0)), (.text ['a', 'b'] false, (1, 3)), (.start ⟨[], ['i']⟩ [], (2, 1)),
+      (.end_ ⟨[], ['i']⟩, (2, 1)), (.end_ ⟨[], ['p']⟩, (2, 1))], none) := by
+  decide
 
 end Genshi.Props.C07
